@@ -360,7 +360,8 @@ def r5(R, repo):
       R.unsure(key, f, 'self._variables[col] = parent_col[...] not found')
   mo = repo.mod(MO)
   ad = mo.func('Module._register_submodules.adopt_attr_modules')
-  R.check("adopted_name = f'{name}{suffix}' if not isinstance(subvalue, CompactNameScope) else current_name" in astu.src(ad.node), key_of(ad, 'adopted submodules are named after the attribute'), ad,
+  _t = astu.src(ad.node)
+  R.check("adopted_name = f'{name}{suffix}' if not isinstance(subvalue, CompactNameScope) else current_name" in _t or "adopted_name = current_name if isinstance(subvalue, CompactNameScope) else f'{name}{suffix}'" in _t, key_of(ad, 'adopted submodules are named after the attribute'), ad,
           'a submodule assigned to an attribute in setup() must be named after that attribute (plus its position suffix)')
   rw = mod.func('Scope.rewound')
   ctor = evid.find_calls(rw, 'Scope')
